@@ -146,6 +146,15 @@ pub struct Pipe {
     pub cap: Option<usize>,
     pub undrained: usize,
     pub writer_waker: Option<Waker>,
+    /// Id of the zlink connection that reads this pipe (set by scenarios that watch held data):
+    /// lets the read seam ask the `zlink_verif` hook where that connection's buffer lives.
+    pub conn_id: Option<usize>,
+    /// Base address of the reader's buffer as last confirmed at a transport read (the hook's note
+    /// from the receive entry agreed with the end address of the slice handed to `read`).
+    pub confirmed_base: Option<usize>,
+    /// A read filled its window since the last confirmation: the reader is about to grow its
+    /// buffer (or has), possibly moving it; held data must not be looked at until re-confirmed.
+    pub maybe_grown: bool,
 }
 
 #[derive(Debug)]
@@ -159,6 +168,8 @@ pub struct PendingConn {
 #[derive(Debug, Default)]
 pub struct ListenerState {
     pub pending: Vec<PendingConn>,
+    /// Connections that arrive one at a time, each once everything before it has settled.
+    pub pending_quiet: VecDeque<PendingConn>,
     pub backlog: VecDeque<(usize, usize)>,
     pub waker: Option<Waker>,
     pub accepted: u64,
@@ -195,9 +206,26 @@ pub struct Watch {
     pub ptr: usize,
     pub len: usize,
     pub expect: Vec<u8>,
-    pub gen: u64,
+    /// Base of the buffer allocation the region lives in; bound at the first confirmed transport
+    /// read after the item was yielded (nothing runs in zlink between the yield and that point).
+    pub base: Option<usize>,
+    /// Length of the buffer when the region was bound. A longer buffer later on means the reader
+    /// grew it while the item was held — the verdict is taken from that (deterministic) fact, not
+    /// from whether the allocator happened to move the block.
+    pub len_at_bind: usize,
+    /// The buffer was grown or seen at another address since: the region may be stale memory and
+    /// is never looked at again.
+    pub moved: bool,
+    /// A transport read returned data while the region was held and before it moved.
+    pub data_read_since: bool,
     pub clobbered: bool,
     pub label: usize,
+}
+
+impl Watch {
+    pub fn new(pipe: usize, text: &str, label: usize) -> Watch {
+        Watch { pipe, ptr: text.as_ptr() as usize, len: text.len(), expect: text.as_bytes().to_vec(), base: None, len_at_bind: 0, moved: false, data_read_since: false, clobbered: false, label }
+    }
 }
 
 pub struct W {
@@ -236,10 +264,19 @@ pub struct W {
     pub watches: Vec<Watch>,
     /// Class reported when a watched region changes although no transport read wrote to it.
     pub watch_class: &'static str,
+    /// Class reported when the buffer holding a watched region moved after a transport read ...
+    pub watch_moved_class: &'static str,
+    /// ... and when it moved although no transport read returned data since the item was yielded.
+    pub watch_moved_without_read_class: &'static str,
     /// Human-readable description of the scenario (filled in when a sample / trace is wanted).
     pub scenario: Option<serde_json::Value>,
     pub want_sample: bool,
     pub tick_sites: BTreeMap<&'static str, u64>,
+    /// Pipes that may still produce environment events (everything else is skipped: worlds with
+    /// thousands of short-lived connections would otherwise scan every pipe at every step).
+    pub live_pipes: Vec<usize>,
+    /// Streams that may still produce environment events.
+    pub live_streams: Vec<usize>,
 }
 
 pub const STEP_CAP_PANIC: &str = "ZSIM_STEP_CAP";
@@ -250,6 +287,7 @@ enum EnvAct {
     Close(usize),
     Break(usize),
     Connect(usize),
+    ConnectQuiet,
     Item(usize),
     End(usize),
     Drain(usize),
@@ -285,9 +323,13 @@ impl W {
             fail: None,
             watches: Vec::new(),
             watch_class: "watch/changed-without-transport-read",
+            watch_moved_class: "watch/reallocated-by-later-transport-read",
+            watch_moved_without_read_class: "watch/reallocated-without-transport-read",
             scenario: None,
             want_sample: trace,
             tick_sites: BTreeMap::new(),
+            live_pipes: Vec::new(),
+            live_streams: Vec::new(),
         }))
     }
 
@@ -339,7 +381,30 @@ impl W {
 
     pub fn new_pipe(&mut self) -> usize {
         self.pipes.push(Pipe::default());
+        self.live_pipes.push(self.pipes.len() - 1);
         self.pipes.len() - 1
+    }
+
+    /// A pipe whose bytes stay put until `wake_pipe` (its connection has not been made yet).
+    pub fn new_dormant_pipe(&mut self) -> usize {
+        self.pipes.push(Pipe::default());
+        self.pipes.len() - 1
+    }
+
+    pub fn wake_pipe(&mut self, p: usize) {
+        if !self.live_pipes.contains(&p) {
+            self.live_pipes.push(p);
+        }
+    }
+
+    pub fn new_stream(&mut self, st: StreamState) -> usize {
+        self.streams.push(st);
+        self.live_streams.push(self.streams.len() - 1);
+        self.streams.len() - 1
+    }
+
+    fn pipe_is_dead(p: &Pipe) -> bool {
+        (p.sink && p.cap.is_none()) || p.reader_gone || p.eof || p.broken
     }
 
     /// A pipe pre-loaded with a scripted peer's bytes.
@@ -378,7 +443,8 @@ impl W {
 
     fn env_acts(&self, idle: bool, out: &mut Vec<EnvAct>) {
         out.clear();
-        for (i, p) in self.pipes.iter().enumerate() {
+        for &i in self.live_pipes.iter() {
+            let p = &self.pipes[i];
             if p.sink && p.cap.is_some() && p.undrained > 0 {
                 out.push(EnvAct::Drain(i));
             }
@@ -395,7 +461,8 @@ impl W {
                 out.push(EnvAct::Close(i));
             }
         }
-        for (i, s) in self.streams.iter().enumerate() {
+        for &i in self.live_streams.iter() {
+            let s = &self.streams[i];
             if !s.created || s.dropped || s.ended {
                 continue;
             }
@@ -405,16 +472,12 @@ impl W {
                 out.push(EnvAct::End(i));
             }
         }
-        let mut quiet_only = Vec::new();
-        for (i, c) in self.listener.pending.iter().enumerate() {
-            if c.after_quiet {
-                quiet_only.push(EnvAct::Connect(i));
-            } else {
-                out.push(EnvAct::Connect(i));
-            }
+        for (i, _) in self.listener.pending.iter().enumerate() {
+            out.push(EnvAct::Connect(i));
         }
-        if out.is_empty() && idle {
-            out.extend(quiet_only);
+        // after-quiet connections arrive one at a time, in the order they were queued
+        if out.is_empty() && idle && !self.listener.pending_quiet.is_empty() {
+            out.push(EnvAct::ConnectQuiet);
         }
     }
 
@@ -426,6 +489,14 @@ impl W {
 
     /// Apply one environment event chosen by the tape. Returns false if none was available.
     pub fn env_step(&mut self, idle: bool) -> bool {
+        if self.live_pipes.len() > 8 {
+            let pipes = &self.pipes;
+            self.live_pipes.retain(|i| !Self::pipe_is_dead(&pipes[*i]));
+        }
+        if self.live_streams.len() > 8 {
+            let streams = &self.streams;
+            self.live_streams.retain(|i| !(streams[*i].dropped || streams[*i].ended));
+        }
         let mut acts = Vec::new();
         self.env_acts(idle, &mut acts);
         if acts.is_empty() {
@@ -451,8 +522,13 @@ impl W {
                     w.wake();
                 }
             }
-            EnvAct::Connect(i) => {
-                let c = self.listener.pending.remove(i);
+            EnvAct::Connect(_) | EnvAct::ConnectQuiet => {
+                let c = match acts[k] {
+                    EnvAct::Connect(i) => self.listener.pending.remove(i),
+                    _ => self.listener.pending_quiet.pop_front().unwrap(),
+                };
+                self.wake_pipe(c.c2s);
+                self.wake_pipe(c.s2c);
                 self.listener.backlog.push_back((c.c2s, c.s2c));
                 self.ev("env.connect", c.c2s as u64, 0);
                 if let Some(w) = self.listener.waker.take() {
@@ -527,6 +603,21 @@ impl W {
                     None => seg_len,
                 }
             }
+        };
+        // Inside a big frame (tens of kB and more) the byte-sized styles jump ahead in random strides
+        // and return to their own pace for the last few hundred bytes before the terminator:
+        // the interesting states are near frame ends and at arbitrary offsets of the payload, not
+        // at each of a million consecutive offsets.
+        let n = if matches!(style, Chunk::Byte | Chunk::RandomSmall) && seg_len > 2048 {
+            let seg = self.pipes[p].segs.front().unwrap();
+            let to_nul = seg.bytes.iter().position(|b| *b == 0).unwrap_or(seg_len);
+            if to_nul > 600 {
+                1 + self.tape.draw(to_nul - 300)
+            } else {
+                n
+            }
+        } else {
+            n
         };
         let n = n.clamp(1, seg_len);
         if n < seg_len {
@@ -710,25 +801,69 @@ impl Future for ReadFut<'_> {
             }
         }
         if !w.watches.is_empty() {
-            let gen = w.pipes[p].realloc_gen;
-            let mut bad: Option<String> = None;
-            for wt in w.watches.iter().filter(|wt| wt.pipe == p && wt.gen == gen && !wt.clobbered) {
-                // SAFETY (best effort): the region lies inside the buffer whose tail we were just
-                // handed, and no growth of that buffer was observed since the watch was set.
-                let now = unsafe { std::slice::from_raw_parts(wt.ptr as *const u8, wt.len) };
-                if now != &wt.expect[..] {
-                    bad = Some(format!(
-                        "held item {} read {:?} when it was yielded and reads {:?} at the start of a later transport read, before that read wrote anything and although no earlier read touched these bytes",
-                        wt.label,
-                        String::from_utf8_lossy(&wt.expect),
-                        String::from_utf8_lossy(now)
-                    ));
-                    break;
+            // Where does the reader's buffer live right now? The hook's note was taken when this
+            // receive started; it is current iff the buffer has not been grown since, i.e. iff
+            // its end is the end of the slice we were just handed.
+            let end = this.buf.as_ptr() as usize + window;
+            let confirmed = w.pipes[p]
+                .conn_id
+                .and_then(zlink_core::connection::verif_hooks::read_buffer_of)
+                .filter(|(b, l)| b + l == end)
+                .map(|(b, l)| (b, l));
+            if let Some((base, len)) = confirmed {
+                w.pipes[p].confirmed_base = Some(base);
+                w.pipes[p].maybe_grown = false;
+                let mut bad: Option<(bool, String)> = None;
+                for wt in w.watches.iter_mut().filter(|wt| wt.pipe == p && !wt.moved) {
+                    let inside = wt.ptr >= base && wt.ptr + wt.len <= base + len;
+                    let verdict: Option<&str> = match wt.base {
+                        None if inside => {
+                            wt.base = Some(base);
+                            wt.len_at_bind = len;
+                            None
+                        }
+                        None => Some("is not inside the receive buffer's allocation at the first transport read after it was yielded"),
+                        Some(_) if len > wt.len_at_bind => Some("is still held while the receive buffer has been grown (and possibly moved) to fit later data"),
+                        Some(b) if b == base && inside => None,
+                        Some(_) => Some("points outside the receive buffer's current allocation although the buffer was not grown"),
+                    };
+                    if let Some(why) = verdict {
+                        wt.moved = true;
+                        if bad.is_none() {
+                            bad = Some((wt.data_read_since, format!("held item {} {why}: the buffer was reallocated while the item was held", wt.label)));
+                        }
+                        continue;
+                    }
+                    if wt.clobbered {
+                        continue;
+                    }
+                    // SAFETY: the region lies inside the live allocation [base, base+len) that the
+                    // reader reported at the start of this receive and has not grown since.
+                    let now = unsafe { std::slice::from_raw_parts(wt.ptr as *const u8, wt.len) };
+                    if now != &wt.expect[..] && bad.is_none() {
+                        bad = Some((
+                            false,
+                            format!(
+                                "held item {} read {:?} when it was yielded and reads {:?} at the start of a later transport read, before that read wrote anything and although no earlier read touched these bytes",
+                                wt.label,
+                                String::from_utf8_lossy(&wt.expect[..wt.expect.len().min(80)]),
+                                String::from_utf8_lossy(&now[..now.len().min(80)])
+                            ),
+                        ));
+                    }
                 }
-            }
-            if let Some(msg) = bad {
-                let class = w.watch_class;
-                w.set_fail(class, msg);
+                if let Some((after_data_read, msg)) = bad {
+                    let class = if msg.contains("the buffer was reallocated while the item was held") {
+                        if after_data_read {
+                            w.watch_moved_class
+                        } else {
+                            w.watch_moved_without_read_class
+                        }
+                    } else {
+                        w.watch_class
+                    };
+                    w.set_fail(class, msg);
+                }
             }
         }
         if !w.pipes[p].readable.is_empty() {
@@ -757,10 +892,12 @@ impl Future for ReadFut<'_> {
             pipe.data_reads += 1;
             if n == window {
                 pipe.realloc_gen += 1;
+                pipe.maybe_grown = true;
             }
             // the bytes this read wrote, plus the end-of-data sentinel the caller plants behind them
             let (lo, hi) = (this.buf.as_ptr() as usize, this.buf.as_ptr() as usize + n + 1);
-            for wt in w.watches.iter_mut().filter(|wt| wt.pipe == p) {
+            for wt in w.watches.iter_mut().filter(|wt| wt.pipe == p && !wt.moved) {
+                wt.data_read_since = true;
                 if wt.ptr < hi && lo < wt.ptr + wt.len {
                     wt.clobbered = true;
                 }
